@@ -101,6 +101,42 @@ def mech_counter(site):
     return "counter (unsigned 64-bit + small constant, no data cast in provenance: bounded by iterations/bytes < 2^64)"
 
 
+def mech_widened(site):
+    """64-bit `x + c` / `x - c` / `x * c` where x was widened from a narrower integer type (`i64::from(u32)`, `n as i64` from <= 32 bits)
+    and |c| <= 2^16: the result is below 2^49 in magnitude"""
+    if site.kind != "overflow":
+        return None
+    parts = site.detail.split(" ")
+    if len(parts) < 2 or parts[0] not in ("Add", "Sub", "Mul"):
+        return None
+    t = parts[1].split(",")[0]
+    if t not in ("i64", "u64", "usize", "isize", "i128", "u128"):
+        return None
+    ops = site.extra["ops"]
+    consts = [_const_int(o) for o in ops]
+    if sum(c is not None for c in consts) != 1:
+        return None
+    c = [x for x in consts if x is not None][0]
+    if abs(c) > 1 << 16:
+        return None
+    other = ops[0] if consts[0] is None else ops[1]
+    if t.startswith("u") and parts[0] == "Sub":
+        return None
+    NARROW = ("u8", "u16", "u32", "i8", "i16", "i32")
+    os_ = F.origins(site.fn, other, depth=6, through_calls=False)
+    if not os_:
+        return None
+    for o in os_:
+        if o.kind == "cast" and o.extra.split("->")[0] in NARROW:
+            continue
+        if o.kind == "call" and (re.search(r"^<(i64|u64|usize|isize|i128|u128) as core::convert::From<(%s)>>::from$" % "|".join(NARROW), short(o.call.name)) or
+                                 re.search(r"^core::convert::num::<impl core::convert::From<(%s)> for (i64|u64|usize|isize|i128|u128)>::from$" % "|".join(NARROW),
+                                           short(o.call.name))):
+            continue
+        return None
+    return "widened narrow integer %s small constant (|result| < 2^49)" % {"Add": "+", "Sub": "-", "Mul": "*"}[parts[0]]
+
+
 def _op_ident(fn, op):
     """identity of an operand for comparing `a - b` with a guard `a >= b`: the local it is a plain copy of, or its constant"""
     if op.get("k") == "const":
@@ -278,6 +314,96 @@ def mech_lengths(site):
                 if og.kind == "cast" and og.extra == "usize->u64" and og.place is not None and _length_leaves(site.fn, og.place):
                     return "element counter (u64 += len() as u64: bounded by the number of elements ever held in memory)"
     return None
+
+
+def _variants_on_edge(info, lab):
+    names = dict((dv, n) for dv, n in info[1].get("variants", []))
+    if lab == "otherwise":
+        listed = set(names.get(l2) for l2 in info[2] if l2 != "otherwise")
+        return set(names.values()) - listed
+    return {names.get(lab)}
+
+
+def _enum_arg_guard(fn, bb, adt=None):
+    """(variants, arg index, adt): the variants of an enum *argument* of fn under which block bb can run - for every switch on the
+    discriminant of (a reference to / a copy of) an argument that dominates bb, the labels whose target reaches bb without passing the
+    switch again (or-patterns and arms with bindings included); intersected over all such switches"""
+    best = None
+    for sw in sorted(fn.reach):
+        if sw == bb or not fn.dominates(sw, bb):
+            continue
+        info = F.switch_info(fn, sw)
+        if not info or info[0] != "discr" or not (info[1].get("adt") or "").startswith("sqlgrep::"):
+            continue
+        if adt is not None and info[1].get("adt") != adt:
+            continue
+        os_ = F.origins(fn, info[1]["pl"], depth=6, through_calls=False)
+        if not (os_ and all(o.kind == "arg" for o in os_) and len(set(o.arg for o in os_)) == 1 and
+                not [e for o in os_ for e in (o.place or {}).get("p", []) if isinstance(e, dict)]):
+            continue
+        vs = set()
+        for lab, tgt in info[2].items():
+            if fn.blocks[tgt]["term"]["k"] == "unreachable" and not fn.blocks[tgt]["stmts"]:
+                continue
+            if tgt == bb or bb in fn.reachable_from(tgt, avoid={sw}):
+                vs |= _variants_on_edge(info, lab)
+        key = (os_[0].arg, info[1]["adt"])
+        if best is None:
+            best = (vs, key[0], key[1])
+        elif (best[1], best[2]) == key:
+            best = (best[0] & vs, best[1], best[2])
+    return best
+
+
+def mech_excluded_variant(site):
+    """panic!/unimplemented!/unreachable! in the arm of a match over an enum argument, where every call of the function sits in an arm of
+    its caller's match over the very same value, for other variants: the arm cannot be entered"""
+    if site.kind != "api:panic" or site.fn.kind == "Closure":
+        return None
+    fn = site.fn
+    P = fn.prog
+    base = P.fns.get(fn.key, fn)
+    g = _enum_arg_guard(fn, site.bb)
+    if g is None:
+        return None
+    vs, argidx, adt = g
+    callers = [(h, c) for h in P.fns.values() for c in h.calls if base.key in P.callee_keys(h, c)]
+    if not callers:
+        return None
+    seen_vs = set()
+    for h, c in callers:
+        if argidx - 1 >= len(c.args) or c.args[argidx - 1].get("k") not in ("copy", "move"):
+            return None
+        ctx, at, op = h, c.bb, c.args[argidx - 1]
+        for _ in range(3):
+            os_ = F.origins(ctx, op, depth=8, through_calls=False)
+            if not os_ or not all(o.kind == "arg" for o in os_) or len(set(o.arg for o in os_)) != 1:
+                return None
+            if ctx.kind != "Closure":
+                break
+            # a captured variable: continue in the function that built the closure, at the place where it was built
+            if os_[0].arg != 1:
+                return None
+            flds = [e["f"] for e in (os_[0].place or {}).get("p", []) if isinstance(e, dict) and "f" in e]
+            par = P.fns.get(ctx.parent_key)
+            if par is None or not flds:
+                return None
+            made = [(i, st) for i, st in par.stmts() if st["k"] == "assign" and st["rv"]["k"] == "aggr" and st["rv"].get("ak") == "closure" and
+                    st["rv"].get("closure") == ctx.raw["key"] and len(st["rv"]["ops"]) > flds[0]]
+            if len(made) != 1:
+                return None
+            at, op, ctx = made[0][0], made[0][1]["rv"]["ops"][flds[0]], par
+        else:
+            return None
+        root_arg = os_[0].arg
+        cg = _enum_arg_guard(ctx, at, adt)
+        if cg is None or cg[1] != root_arg:
+            return None
+        if cg[0] & vs:
+            return None
+        seen_vs |= cg[0]
+    return "arm for %s of a match over argument %d: every call of the function (%d) sits in a match arm of its caller over the same " \
+           "value for other variants (%s)" % ("/".join(sorted(vs)), argidx, len(callers), "/".join(sorted(seen_vs)))
 
 
 def _dominating_guards(site):
@@ -549,7 +675,7 @@ def run_inventory(R, rid, root_name, desc, restrict=None):
     for key in sorted(by_key):
         ss = by_key[key]
         for idx, s in enumerate(sorted(ss, key=lambda s: (s.file, s.line))):
-            how = mech_const_divisor(s) or mech_counter(s) or mech_const_ctor(s) or mech_lengths(s) or mech_const_clamp(s) or mech_position_index(s) or mech_guarded_sub(s) or mech_full_range(s)
+            how = mech_const_divisor(s) or mech_counter(s) or mech_const_ctor(s) or mech_lengths(s) or mech_const_clamp(s) or mech_position_index(s) or mech_guarded_sub(s) or mech_full_range(s) or mech_excluded_variant(s) or mech_widened(s)
             if how:
                 R.ok(rid, key, "mechanical: " + how, s.loc(), nontrivial=False)
                 continue
